@@ -27,7 +27,7 @@ func main() {
 	runner.Main(runner.Config{
 		ID:    "C07",
 		Level: "model_checking",
-		Rule:  "patches x parameters. Byte level: old file 'a' in {\"\",x,xx,xy,P[:5],P[:9],P[:17],P[:40]} (P a fixed aperiodic string over {x,y}; strings starting with y are the x<->y images of enumerated ones) x new file in {every string over {x,y} of length 0..4; for each length 5..16: prefix of old, prefix with one byte edited, old extended, unrelated string} x layout in {same path, renamed a->b, same path plus two fixed companion files m (9->10 bytes) and z (40->33 bytes)}. Block level: an enumerated list of build pairs over 64KiB blocks (identical, one block changed, swapped, grown, shrunk, renamed with shared blocks, two candidate old files, short final block reused by a tiny renamed file, empty and tiny files next to big ones). Parameters: Partitions 0..16 x ForceMapAll {f,t} x RediffSizeLimit {default,1,10 (byte level) | 70000 (block level)} in full product, SuffixSortConcurrency {0,1,-1} x output compression {none,gzip-1,brotli-1,optimizer default} cycling with the ordinal (every pair meets every combination several times); compression of the input patch cycles over {none,gzip-1,brotli-1} per pair. quick runs every pair under every Partitions value with a rotating slice of the six (ForceMapAll, limit) combinations (one per Partitions value; every pair meets all six). Oracle: NewContext/Optimize return nil without panic or process crash, the optimized patch decodes with the independent decoder, applies with a fresh bowl to a tree equal to the new build, and applies in place (overlay bowl on a copy of the old build) to a tree equal to the new build; the original patch is checked the same way once per pair; an optimized patch byte-identical to one already applied and verified for the same pair is not applied again (the patcher is a deterministic function of patch bytes and old build). Non-trivial = the optimized patch contains a bsdiff series with a non-empty Add.",
+		Rule:  "patches x parameters. Byte level: old file 'a' in {\"\",x,xx,xy,P[:5],P[:9],P[:17],P[:40]} (P a fixed aperiodic string over {x,y}; strings starting with y are the x<->y images of enumerated ones) x new file in {every string over {x,y} of length 0..4; for each length 5..16: prefix of old, prefix with one byte edited, old extended, unrelated string} x layout in {same path, renamed a->b, same path plus two fixed companion files m (9->10 bytes) and z (40->33 bytes)}. Block level: an enumerated list of build pairs over 64KiB blocks (identical, one block changed, swapped, grown, shrunk, renamed with shared blocks, two candidate old files, short final block reused by a tiny renamed file, empty and tiny files next to big ones). File sequences: three files per build, each in every relation {unchanged, 1 edit, 2 edits, grown, shrunk, unrelated, emptied} to its old version, all 343 orders, Partitions {0,2,5} x ForceMapAll (the optimizer reuses one bsdiff context for all files of a patch). Parameters: Partitions 0..16 x ForceMapAll {f,t} x RediffSizeLimit {default,1,10 (byte level) | 70000 (block level)} in full product, SuffixSortConcurrency {0,1,-1} x output compression {none,gzip-1,brotli-1,optimizer default} cycling with the ordinal (every pair meets every combination several times); compression of the input patch cycles over {none,gzip-1,brotli-1} per pair. quick runs every pair under every Partitions value with a rotating slice of the six (ForceMapAll, limit) combinations (one per Partitions value; every pair meets all six). Oracle: NewContext/Optimize return nil without panic or process crash, the optimized patch decodes with the independent decoder, applies with a fresh bowl to a tree equal to the new build, and applies in place (overlay bowl on a copy of the old build) to a tree equal to the new build; the original patch is checked the same way once per pair; an optimized patch byte-identical to one already applied and verified for the same pair is not applied again (the patcher is a deterministic function of patch bytes and old build). Non-trivial = the optimized patch contains a bsdiff series with a non-empty Add.",
 		Assumptions: []string{
 			"new builds with no entries at all are not enumerated (nothing to optimize; reading such a patch back under gzip is the C01 finding in the savior dependency)",
 			"file modes, symlinks and directories are not varied here (C01/C02 own them)",
@@ -109,6 +109,54 @@ func bytePairs() []pair {
 				pair{o: wh.Build{wh.F("a", lit(o)), wh.F("m", lit(pat[3:12])), wh.F("z", lit(pat))},
 					n: wh.Build{wh.F("a", lit(n)), wh.F("m", lit(flip(pat[3:12], 4)+"y")), wh.F("z", lit(pat[:20]+"y"+pat[28:]))}},
 			)
+		}
+	}
+	return ps
+}
+
+// seqPairs: three files per build, each related to its old version in one of several
+// ways, in every order: the optimizer reuses one bsdiff context (buffers, suffix array)
+// for all files of a patch, so what one file leaves behind meets every kind of next file.
+func seqPairs() []pair {
+	base := []string{pat[:40], unrel[:16] + pat[5:35], pat[10:40] + unrel[:12]}
+	big := pat + unrel + pat[7:] + unrel[3:] + pat[:33] + unrel[:9] + pat // ~300 bytes
+	rel := func(kind byte, o string) string {
+		switch kind {
+		case 'U':
+			return o
+		case 'E':
+			return flip(o, len(o)/2)
+		case 'F':
+			return flip(flip(o, 1), len(o)-2)
+		case 'G':
+			return o + "xyyx"
+		case 'S':
+			return o[:len(o)/2]
+		case 'X':
+			x := ""
+			for len(x) < len(o)/2 {
+				x += unrel
+			}
+			return x[:len(o)/2] + "yx"
+		case '0':
+			return ""
+		}
+		panic("bad kind")
+	}
+	kinds := "UEFGSX0"
+	var ps []pair
+	for _, k1 := range kinds {
+		for _, k2 := range kinds {
+			for _, k3 := range kinds {
+				olds := []string{base[0], big, base[2]}
+				if (int(k1)+int(k2)+int(k3))%2 == 1 {
+					olds = []string{big, base[1], base[2]}
+				}
+				ps = append(ps, pair{
+					o: wh.Build{wh.F("f1", lit(olds[0])), wh.F("f2", lit(olds[1])), wh.F("f3", lit(olds[2]))},
+					n: wh.Build{wh.F("f1", lit(rel(byte(k1), olds[0]))), wh.F("f2", lit(rel(byte(k2), olds[1]))), wh.F("f3", lit(rel(byte(k3), olds[2])))},
+				})
+			}
 		}
 	}
 	return ps
@@ -388,6 +436,29 @@ func body(w *runner.W) {
 		byteSub.Note("pairs", len(ps))
 		enumerate(byteSub, ps, []int64{0, 1, 10}, 1, true)
 		byteSub.Done()
+	}
+
+	seqSub := runner.NewSub(w, "file-sequences", run, runner.Journal())
+	if seqSub.Active() {
+		ps := seqPairs()
+		seqSub.Note("pairs", len(ps))
+		n := 0
+		for pi, p := range ps {
+			if !w.Owns(pi) {
+				continue
+			}
+			for _, part := range []int{0, 2, 5} {
+				for _, force := range []bool{true, false} {
+					n++
+					if w.Quick() && part == 5 {
+						continue
+					}
+					seqSub.DoOwned(Case{Old: p.o, New: p.n, DiffComp: dcomps[pi%3], P: wh.RediffParams{
+						Partitions: part, Concurrency: concs[n%3], ForceMapAll: force, Comp: ocomps[n%4]}})
+				}
+			}
+		}
+		seqSub.Done()
 	}
 
 	blockSub := runner.NewSub(w, "block-level", run, runner.Journal())
